@@ -50,9 +50,9 @@ def replaceAll (pairs : List (Bytes × Bytes)) : Nat → Bytes → Bytes
 /-! ### global path variables, from the source -/
 
 def globalVar (name : Bytes) : Bytes :=
-  match Facts.globalVars.find? fun kv => Bytes.ofString kv.1 = name with
-  | some kv => Bytes.ofString kv.2
-  | none => Bytes.ofString Facts.anyMatch
+  match Facts.globalVarsB.find? fun kv => kv.1 = name with
+  | some kv => kv.2
+  | none => Facts.anyMatchB
 
 /-! ### structured pattern -/
 
